@@ -11,7 +11,7 @@
    No theorem here is partial any more: the former exclusion of `delete` of an absent element bound (D45) is gone
    with the presence flags in the model's list attributes. *)
 From Coq Require Import List NArith Bool.
-From GY Require Import Model.Schema Spec.C08 Proofs.DeviationStripProofs Proofs.DeviationProofs.
+From GY Require Import Model.Schema Spec.C08 Proofs.DeviationStripProofs Proofs.DeviationProofs Proofs.DeviationTypeProofs.
 From GY Require Spec.C04.
 Import ListNotations.
 Local Open Scope N_scope.
@@ -247,6 +247,25 @@ Theorem C08_T4_unresolvable_type : forall dv t,
   dv_type dv = Some t -> is_builtin t = false -> deviate_err dv = true.
 Proof. exact unresolvable_type_bad_statement. Qed.
 
+(* The reference for ANY classification [resolvable] of type statements (the model's types are opaque names that resolve
+   iff builtin; the correspondence check also runs the reference on generated replacement types that are whole type
+   statements -- restrictions, unions, typedef references -- with [resolvable] := resolves-by-construction, OCaml
+   c08specr): a deviate statement naming a type that does not resolve is inapplicable whatever its kind, its other
+   properties, the target and the options; wherever it stands among the deviate statements of the deviation (statements
+   after it that overwrite the type do not repair it); and one naming only a type that resolves sets exactly the type *)
+Theorem C08_T4_spec_unresolvable_type : forall (resolvable : str -> bool) ign rem st dv t,
+  dv_type dv = Some t -> resolvable t = false -> spec_deviate resolvable ign rem st dv = None.
+Proof. exact spec_unresolvable_type_reported. Qed.
+Theorem C08_T4_spec_unresolvable_type_anywhere : forall (resolvable : str -> bool) ign rem d1 dv d2 st t,
+  dv_type dv = Some t -> resolvable t = false ->
+  spec_apply_all resolvable ign rem st (d1 ++ dv :: d2) = None.
+Proof. exact spec_apply_all_unresolvable_type. Qed.
+Theorem C08_T1_spec_resolvable_type : forall (resolvable : str -> bool) ign rem st dv t k,
+  kind_of (dv_kind dv) = Some k -> k = DKAdd \/ k = DKReplace ->
+  named_props dv = [PType t] -> resolvable t = true ->
+  spec_deviate resolvable ign rem st dv = Some (with_node st (set_ty (ts_node st) (Some t))).
+Proof. exact spec_resolvable_type_set. Qed.
+
 (* a deviation (job) that fails when its turn comes -- after the deviations before it, of this and of the
    modules visited earlier, have been applied -- makes Process report *)
 Theorem C08_T4_failed_deviation : forall SC ic ign order st0 pre j post,
@@ -449,6 +468,15 @@ Proof. vm_compute. reflexivity. Qed.
 Example C08_ex_unresolvable_type :
   Process [mB; mD [(path_x, [dv_ty s_replace [110;111;112;101]])]] false false order1 = RErr.
 Proof. vm_compute. reflexivity. Qed.
+(* the hypotheses of C08_T1_spec_resolvable_type / C08_T4_spec_unresolvable_type_anywhere are satisfiable: a label that
+   the classification accepts is set, the same label under a classification that rejects it is reported although a
+   later statement names a builtin type *)
+Example C08_ex_spec_labelled_type :
+  let lab : str := [84;89;76;49] in
+  kind_of (dv_kind (dv_ty s_replace lab)) = Some DKReplace /\ named_props (dv_ty s_replace lab) = [PType lab] /\
+  spec_apply_all (fun t => str_eqb t lab) false true (init_state (leaf_x [50])) [dv_ty s_replace lab] <> None /\
+  spec_apply_all (fun _ => false) false true (init_state (leaf_x [50])) [dv_ty s_replace lab; dv_ty s_replace [115;116;114;105;110;103]] = None.
+Proof. vm_compute. repeat split; discriminate. Qed.
 Example C08_ex_unknown_kind :
   Process [mB; mD [(path_x, [dv0 [98;111;103;117;115]])]] false false order1 = RErr.
 Proof. vm_compute. reflexivity. Qed.
